@@ -601,6 +601,12 @@ def client_confirm(run, trace):
 
     def confirm(v):
         nonlocal lines
+        if v.get("static"):
+            e = v.get("event") or {}
+            v["context"] = {"replay_case": {"op": "sweep_explen", "fc": e.get("fc"), "framing": e.get("framing"), "unit": e.get("unit"), "addr": e.get("addr"),
+                                            "waddr": e.get("waddr", 0), "tid": 1, "from": e.get("qty"), "to": e.get("qty"), "data": e.get("data"), "coils": e.get("coils")},
+                            "family": "codec", "trace_spec": "Trace_Codec"}
+            return "confirmed"
         if lines is None:
             lines = trace_lines(trace)
         i = v["line"]
@@ -643,6 +649,14 @@ def client_pipeline(run, setname, rule, assumptions, mcs, prop_filter=None, time
     ngen = gen_family(run, "Gen_Client", setname, cases)
     run.drive("client", cases, trace, extra=["-mode", "timeout=%d" % timeout_ms], timeout=3000)
     verdicts, nev = run.validate("Trace_Client", "Trace_Client.cfg", trace, resync_key='"pair":0')
+    extra = getattr(run, "extra_verdicts", None)
+    if extra:
+        # verdicts of the static expected-length sweep (validated by Trace_Codec); they are not client exchanges,
+        # so they carry their own confirmation context
+        for v in extra:
+            v["line"] = -1 - v["line"]
+            v["static"] = True
+        verdicts = verdicts + extra
     harness_bad = [v for v in verdicts if v["verdict"].startswith("harness-")]
     if harness_bad:
         raise Infra("driver/trace inconsistency: %s" % json.dumps(harness_bad[0])[:1500])
@@ -655,6 +669,8 @@ def client_pipeline(run, setname, rule, assumptions, mcs, prop_filter=None, time
         "rule": rule, "spec_generated_cases": ngen, "events_by_kind": ops,
         "samples": vlib.sample_lines(trace, 4), "exhaustive": False,
     }
+    if getattr(run, "extra_events", None):
+        cov["static_expected_length_events"] = run.extra_events
     return vlib.finish(run, "model_checking", cov, assumptions, kn, viol, confirm=client_confirm(run, trace))
 
 
@@ -663,8 +679,29 @@ CLIENT_ASSUME = ["the scripted transport (net.Conn / io.ReadWriteCloser) deliver
                  "replies are built by the specification; payload content is a fixed pattern"]
 
 
+def explen_static(run):
+    """static half of C07: the length every accepted request reports vs. the specified reply length, for every quantity"""
+    T = run.tier == "thorough"
+    cases, trace = run.path("explen.cases"), run.path("explen.trace")
+    ex = []
+    for fr in ("tcp", "rtu"):
+        for fc in (1, 2, 3, 4):
+            hi = (2000 if fc <= 2 else 125)
+            ex.append({"op": "sweep_explen", "fc": fc, "framing": fr, "unit": 1, "addr": 7, "tid": 1, "from": 0, "to": 65535 if T else hi + 50})
+        ex.append({"op": "sweep_explen", "fc": 23, "framing": fr, "unit": 1, "addr": 7, "waddr": 9, "tid": 1, "from": 0, "to": 130})
+        for fc in (5, 6, 15, 16, 17):
+            ex.append({"op": "sweep_explen", "fc": fc, "framing": fr, "unit": 1, "addr": 7, "tid": 1, "from": 1, "to": 1, "data": [1, 2], "coils": [1, 0, 1]})
+    with open(cases, "w") as f:
+        for c in ex:
+            f.write(json.dumps(c) + "\n")
+    run.drive("codec", cases, trace)
+    vs, n = run.validate("Trace_Codec", "Trace_Codec.cfg", trace, shards=4)
+    return vs, n, trace
+
+
 @check("C07")
 def c07(run):
+    run.extra_verdicts, run.extra_events, _ = explen_static(run)
     return client_pipeline(
         run, "c07",
         rule="10 request types x {TCP client, RTU-over-network client, serial client} x reply shapes (smallest, middle, largest legal, FC17 id/extra variants, exception replies) x "
